@@ -93,6 +93,12 @@ class Union(BackedView):
     def options(cls) -> Options:
         raise NotImplementedError
 
+    @classmethod
+    def coerce_view(cls: Type[V], v: Any) -> V:
+        if isinstance(v, cls):
+            return v
+        return cls(selector=v.selector(), value=v.value())  # type: ignore
+
     def selector(self) -> int:
         selector_node = super().get_backing().get_right()
         selector = int(cast(uint256, uint256.view_from_backing(node=selector_node, hook=None)))
